@@ -12,10 +12,6 @@ Lemma prefix_free_true : prefix_free = true.
 Proof. vm_compute. reflexivity. Qed.
 Lemma kraft_complete_true : kraft_complete = true.
 Proof. vm_compute. reflexivity. Qed.
-Definition no_all_ones : bool := forallb (fun c => negb (forallb (fun b => b) (code_bits c))) symbols.
-Lemma no_all_ones_true : no_all_ones = true.
-Proof. vm_compute. reflexivity. Qed.
-
 Lemma in_symbols c : In c symbols <-> 0 <= c < 256.
 Proof.
   unfold symbols. rewrite in_map_iff. split.
@@ -28,11 +24,15 @@ Proof.
   apply in_symbols. specialize (H c Hc). unfold wf_byte in H. lia.
 Qed.
 
+Lemma len_bounds_true :
+  forallb (fun c => (5 <=? len_of c) && (len_of c <=? 30) && (0 <=? code_of c) && (code_of c <? 2 ^ len_of c)) symbols = true.
+Proof. vm_compute. reflexivity. Qed.
 Lemma huff_len_bounds c : In c symbols -> 5 <= len_of c <= 30 /\ 0 <= code_of c < 2 ^ len_of c.
 Proof.
-  intros Hc. pose proof table_wf_true as H. unfold table_wf in H.
-  apply andb_true_iff in H. destruct H as [_ H]. rewrite forallb_forall in H.
-  specialize (H c Hc). lia.
+  intros Hc. pose proof (proj1 (forallb_forall _ _) len_bounds_true c Hc) as H. cbv beta in H.
+  apply andb_true_iff in H. destruct H as [H H4]. apply andb_true_iff in H. destruct H as [H H3].
+  apply andb_true_iff in H. destruct H as [H1 H2].
+  apply Z.leb_le in H1. apply Z.leb_le in H2. apply Z.leb_le in H3. apply Z.ltb_lt in H4. auto.
 Qed.
 
 Lemma bits_msb_length n v : length (bits_msb n v) = n.
@@ -62,28 +62,39 @@ Proof.
   eapply IH; eassumption.
 Qed.
 
+Definition pf_pairs : bool :=
+  forallb (fun c => forallb (fun d => (c =? d) || negb (is_prefix_b (code_bits c) (code_bits d))) symbols) symbols.
+Definition pf_eos : bool :=
+  forallb (fun c => negb (is_prefix_b (code_bits c) eos_bits || is_prefix_b eos_bits (code_bits c))) symbols.
+Lemma pf_pairs_true : forallb (fun c => forallb (fun d => (c =? d) || negb (is_prefix_b (code_bits c) (code_bits d))) symbols) symbols = true.
+Proof. vm_compute. reflexivity. Qed.
+Lemma pf_eos_true : forallb (fun c => negb (is_prefix_b (code_bits c) eos_bits || is_prefix_b eos_bits (code_bits c))) symbols = true.
+Proof. vm_compute. reflexivity. Qed.
+Lemma nao_true : forallb (fun c => negb (forallb (fun b => b) (code_bits c))) symbols = true.
+Proof. vm_compute. reflexivity. Qed.
+
 Lemma huff_prefix_free c d :
   In c symbols -> In d symbols -> is_prefix_b (code_bits c) (code_bits d) = true -> c = d.
 Proof.
-  intros Hc Hd Hp. pose proof prefix_free_true as H. unfold prefix_free in H.
-  rewrite forallb_forall in H. specialize (H c Hc).
-  apply andb_true_iff in H. destruct H as [H _]. apply andb_true_iff in H. destruct H as [H _].
-  rewrite forallb_forall in H. specialize (H d Hd).
-  apply orb_true_iff in H. destruct H as [H|H]; [lia|]. rewrite Hp in H. discriminate.
+  intros Hc Hd Hp.
+  pose proof (proj1 (forallb_forall _ _) pf_pairs_true c Hc) as H. cbv beta in H.
+  pose proof (proj1 (forallb_forall _ _) H d Hd) as H2. cbv beta in H2.
+  rewrite Hp in H2. apply orb_true_iff in H2. destruct H2 as [H2|H2].
+  - apply Z.eqb_eq in H2. exact H2.
+  - discriminate H2.
 Qed.
 Lemma huff_not_eos_prefix c :
   In c symbols -> is_prefix_b (code_bits c) eos_bits = false /\ is_prefix_b eos_bits (code_bits c) = false.
 Proof.
-  intros Hc. pose proof prefix_free_true as H. unfold prefix_free in H.
-  rewrite forallb_forall in H. specialize (H c Hc).
-  apply andb_true_iff in H. destruct H as [H H2]. apply andb_true_iff in H. destruct H as [_ H1].
-  split; [destruct (is_prefix_b (code_bits c) eos_bits) | destruct (is_prefix_b eos_bits (code_bits c))];
-    simpl in *; congruence.
+  intros Hc.
+  pose proof (proj1 (forallb_forall _ _) pf_eos_true c Hc) as H. cbv beta in H.
+  apply negb_true_iff in H. apply orb_false_iff in H. exact H.
 Qed.
 Lemma code_not_all_ones c : In c symbols -> forallb (fun b => b) (code_bits c) = false.
 Proof.
-  intros Hc. pose proof no_all_ones_true as H. unfold no_all_ones in H. rewrite forallb_forall in H.
-  specialize (H c Hc). destruct (forallb (fun b => b) (code_bits c)); simpl in *; congruence.
+  intros Hc.
+  pose proof (proj1 (forallb_forall _ _) nao_true c Hc) as H. cbv beta in H.
+  apply negb_true_iff in H. exact H.
 Qed.
 
 (* ---------- the greedy symbol match finds exactly the encoded symbol ---------- *)
@@ -156,16 +167,14 @@ Qed.
 Lemma pad_len_spec n : exists k, (n + pad_len n = 8 * k)%nat /\ Z.of_nat k = (Z.of_nat n + 7) / 8 /\ (pad_len n < 8)%nat.
 Proof.
   unfold pad_len. pose proof (Nat.div_mod n 8) as Hd. pose proof (Nat.mod_upper_bound n 8) as Hm.
-  remember (n mod 8)%nat as r. remember (n / 8)%nat as q.
-  assert (r < 8)%nat as Hr by lia.
+  remember (n mod 8)%nat as r. remember (n / 8)%nat as q. clear Heqr Heqq.
+  assert (r < 8)%nat as Hr by lia. assert (n = 8 * q + r)%nat as Hn by lia. clear Hd Hm.
   destruct (Nat.eq_dec r 0) as [->|Hnz].
-  - exists q. simpl. split; [lia|split; [|lia]].
-    assert (Z.of_nat n = 8 * Z.of_nat q) as -> by lia.
-    symmetry. apply Z.div_unique with (r := 7); lia.
+  - exists q. change ((8 - 0) mod 8)%nat with 0%nat. split; [lia|split; [|lia]].
+    apply Z.div_unique with (r := 7); lia.
   - exists (S q). assert ((8 - r) mod 8 = 8 - r)%nat as -> by (apply Nat.mod_small; lia).
     split; [lia|split; [|lia]].
-    assert (Z.of_nat n = 8 * Z.of_nat q + Z.of_nat r) as -> by lia.
-    symmetry. apply Z.div_unique with (r := Z.of_nat r - 1); lia.
+    apply Z.div_unique with (r := Z.of_nat r - 1); lia.
 Qed.
 
 Lemma sum_len_bits s : Forall (fun c => In c symbols) s -> forall a,
